@@ -68,7 +68,24 @@ def lua_edit(kind):
           "%sselectgroup(3)" % pre, "%scopytranslate(0,2,3,4)" % pre, "%sclearselected()" % pre,
           "%sselectgroup(3)" % pre, "%smirror(-1,0,-1,1,4)" % pre, "%sclearselected()" % pre,
           "%sselectgroup(3)" % pre, "%scopyrotate(10,10,30,2,4)" % pre, "%sclearselected()" % pre,
-          "%sselectarcsegment(0.5,-0.1)" % pre, "%sselectlabel(0.5,0.5)" % pre, "%scopytranslate(0,-3,2)" % pre, "%sclearselected()" % pre,
+          "%sselectarcsegment(0.5,-0.1)" % pre, "%sselectlabel(0.5,0.5)" % pre, "%scopytranslate(0,-3,2)" % pre, "%sclearselected()" % pre]
+    # rounded corners: an outline drawn counter-clockwise and one drawn clockwise (every side starts where the previous one ended), all four
+    # corners each; a corner of a line and an arc; then deletions and moves of what was made (create-radius adds points, deletes the corner and
+    # the pieces of the sides next to it, and adds an arc - in that order)
+    for (x0, order) in ((20.0, [(0, 0), (4, 0), (4, 3), (0, 3)]), (30.0, [(0, 0), (0, 3), (4, 3), (4, 0)])):
+        pts = [(x0 + a, b) for (a, b) in order]
+        for (x, y) in pts:
+            l.append("%saddnode(%g,%g)" % (pre, x, y))
+        for i in range(4):
+            a, b = pts[i], pts[(i + 1) % 4]
+            l.append("%saddsegment(%g,%g,%g,%g)" % (pre, a[0], a[1], b[0], b[1]))
+        for i, rr in enumerate((0.5, 0.4, 0.75, 0.3)):
+            l.append("%screateradius(%g,%g,%g)" % (pre, pts[i][0], pts[i][1], rr))
+    l += ["%saddnode(40,0)" % pre, "%saddnode(42,0)" % pre, "%saddnode(42,2)" % pre, "%saddsegment(40,0,42,0)" % pre, "%saddarc(42,0,42,2,90,5)" % pre,
+          "%screateradius(42,0,0.25)" % pre,
+          "%sselectnode(20.5,0)" % pre, "%sselectnode(24,0.4)" % pre, "%sdeleteselectednodes()" % pre,
+          "%sselectsegment(32,3)" % pre, "%sselectarcsegment(30.1,0.1)" % pre, "%smoverotate(32,1.5,45,4)" % pre, "%sclearselected()" % pre,
+          "%sselectsegment(41,0)" % pre, "%sscale(40,0,1.5,1)" % pre, "%sclearselected()" % pre,
           '%ssaveas("edited%s")' % (pre, femmio.EXT[kind])]
     return "\n".join(l) + "\n"
 
